@@ -609,6 +609,7 @@ def rule_macros(ck, R):
 
 
 def run(ck):
+    ck.rule('C01.g', 'validation depends on the table flag REG_TF_DURING_INIT (always-fail registers accept their default during initialisation only): the flag is written by register_init alone and is clear on every exit of it (C04.a re-evaluated)')
     ck.rule('C01.f', 'typed access to callback-backed areas: the area callback is called only after a test that it exists (a write-only area has no read callback, a read-only one no write callback)')
     ck.rule('C01.a', 'per RegisterType: rds_serdes[T] pair and rds_size[T] agree with the type the REG_* macros associate; bit summary (K8) of ser_T writes exactly the big/little-endian image of v.value.m(T), des_T is its bitwise inverse and sets type T  [proof for all values]')
     ck.rule('C01.b', 'rv_validate: type test dominates acceptance; per validator kind and type the accepted set is exactly min <= v / v <= max / both (inclusive, same union member), TRIVIAL always, FAIL only DURING_INIT, CALLBACK the callback verdict, unknown kind rejects')
@@ -626,3 +627,6 @@ def run(ck):
     rule_e(ck, R)
     for fn_ in ('register_get', 'register_setx'):
         callback_guard(R, 'C01.f', fn_)
+    from .common import reevaluate
+    reevaluate(ck, 'C01.g', 'c04', lambda r, k: r == 'C04.a' and k.startswith('flags:'),
+               'the always-fail constraint is lifted only while REG_TF_DURING_INIT is set: nothing but register_init sets that flag, and register_init clears it on every exit')
